@@ -109,6 +109,18 @@ def split_if_else(body, cond_regex):
     return then, els, m.start()
 
 
+def _replay_dispatches(src, segment):
+    """the callback handed to `backtrace_storage->process(` inside `segment` hands each stored event `te` to
+    `_dispatch_transit_event_to_sinks`: directly, or (F26 repair) through a member function whose body calls it"""
+    if "_dispatch_transit_event_to_sinks(te" in segment:
+        return True
+    m = re.search(r"backtrace_storage\s*->\s*process\s*\(\s*\[[^\]]*\]\s*\([^)]*\)\s*\{\s*(\w+)\s*\(\s*te\b", segment)
+    if not m:
+        return False
+    fb = func_body(src, r"void\s+" + re.escape(m.group(1)) + r"\s*\([^)]*\)\s*\{")
+    return bool(fb and re.search(r"_dispatch_transit_event_to_sinks\s*\(\s*transit_event\b", fb))
+
+
 def extract_backend(repo, failures):
     src = strip_cpp_comments(read(repo, "include/quill/backend/BackendWorker.h"))
     body = func_body(src, r"void\s+_process_transit_event\s*\([^)]*\)\s*\{")
@@ -130,13 +142,13 @@ def extract_backend(repo, failures):
     d = then.find("_dispatch_transit_event_to_sinks(transit_event")
     r = re.search(r"backtrace_storage\s*->\s*process\s*\(", then)
     q["writesBeforeReplay"] = bool(d >= 0 and m and r and d < m.start() < r.start()
-                                   and "_dispatch_transit_event_to_sinks(te" in then[r.start():])
+                                   and _replay_dispatches(src, then[r.start():]))
     q["backtraceBranchStoresOnly"] = bool(re.search(r"backtrace_storage\s*->\s*store\s*\(", els)
                                           and "_dispatch_transit_event_to_sinks" not in els
                                           and "QUILL_THROW" in els)
     fb = split_if_else(body, r"transit_event\s*\.\s*macro_metadata\s*->\s*event\s*\(\s*\)\s*==\s*MacroMetadata::Event::FlushBacktrace")
     q["explicitFlushReplays"] = bool(fb and re.search(r"backtrace_storage\s*->\s*process\s*\(", fb[0])
-                                     and "_dispatch_transit_event_to_sinks(te" in fb[0])
+                                     and _replay_dispatches(src, fb[0]))
     ib = split_if_else(body, r"transit_event\s*\.\s*macro_metadata\s*->\s*event\s*\(\s*\)\s*==\s*MacroMetadata::Event::InitBacktrace")
     q["initSetsCapacity"] = bool(ib and re.search(r"backtrace_storage\s*->\s*set_capacity\s*\(", ib[0])
                                  and re.search(r"make_shared\s*<\s*BacktraceStorage\s*>", ib[0]))
